@@ -15,7 +15,9 @@ def to_coq(cases):
     for c in cases:
         n = c["id"]
         body.append("Definition k%d := {| k_api := %s; k_redir := %s; k_status := %d; k_loc := %s; k_default := %s; k_suffix := %s |}." % (
-            n, "true" if c["api"] else "false", I.b(c["redir"]), c["status"], I.b(c["location"]), I.b(c["default"]),
+            n, "true" if c["api"] else "false",
+            # the carry flows give the target to the first step only: the judged (last) request carries none
+            I.b("" if c["flow"].endswith("carry") else c["redir"]), c["status"], I.b(c["location"]), I.b(c["default"]),
             I.b(c.get("suffix", ""))))
         body.append("Definition r%d := Eval vm_compute in c15_check %d k%d." % (n, n, n))
         names.append("r%d" % n)
@@ -148,7 +150,7 @@ def run(out, prelude):
     out.cov.update(
         evaluations=len(cases), distinct_nontrivial=len(followed),
         rule="return-target strings from a URL-spelling grammar (schemes, slashes/backslashes, controls, percent "
-             "encodings, userinfo, dot segments) + fixed corpus%s, each through password/otp/totp/sms/oauth2 flows in form "
+             "encodings, userinfo, dot segments) + fixed corpus%s, each through password/otp/totp/sms/oauth2 flows (and the two-step 2FA flows with the target given to the first step only) in form "
              "and JSON mode on the real redirector; non-trivial = the flow followed the supplied target" % (
                  " + every string of length <= 3 over a 12-symbol alphabet" if args["exh"] else ""),
         samples=[dict(flow=c["flow"], api=c["api"], redir=bytes.fromhex(c["redir"]).decode("latin1"),
